@@ -1717,5 +1717,5 @@ Example C10_corrupt_hyp_sat :
   nth 29 (encode_log ex_log3) 0 = RtFull /\
   replay_file (set_nth 29 RtFirst (encode_log ex_log3)) = ([canon ex_small], Damaged) /\
   (* the instrumented reader lists every accepted record of the intact log *)
-  snd (replay_file_i (encode_log ex_log3)) = [(69, 16); (46, 16); (23, 16)]%nat.
-Proof. vm_compute. repeat split. Show. Qed.
+  snd (replay_file_i (encode_log ex_log3)) = [(73, 16); (50, 20); (23, 16)]%nat.
+Proof. vm_compute. repeat split. Qed.
